@@ -456,7 +456,7 @@ def validate(ctx, traces, kind):
     cost = lambda tr: (40 if tr["f"]["mn"] in ("mul", "imul", "div", "idiv") and tr["f"]["sz"] == 64 else
                        10 if tr["f"]["mn"] in ("mul", "imul", "div", "idiv") else 1)
     order = sorted(range(len(traces)), key=lambda i: -cost(traces[i]))
-    nsh = max(1, min(tlc.NCPU, len(traces) // 40 or 1))
+    nsh = max(1, min(tlc.NCPU, len(traces) // 60 or 1))
     shards = [[] for _ in range(nsh)]
     for k, i in enumerate(order):
         shards[k % nsh].append(traces[i])
